@@ -14,10 +14,24 @@ ASSUMPTIONS = ["increasing whole-second time axes; thresholds keep |variance - t
 
 
 def sig_range_nan(f):
-    return f.get("function", "").startswith("attenuated_signal_test") and fa.range_nan_case(f.get("case", {}))
+    c = f.get("case", {})
+    return f.get("function", "").startswith("attenuated_signal_test") and isinstance(c, dict) and "tp" in c \
+        and fa.range_nan_case(c)
 
 
 SIGNATURES = {"attenuated_range_window_with_missing_value_is_unknown": sig_range_nan}
+
+
+def _whole_median_step(c):
+    """min_period is converted with the median time step floored to whole seconds: doubling all times doubles
+    that step only when the median itself is a whole number of seconds"""
+    if c["min_period"] is None or c["min_obs"] is not None:
+        return True
+    d = sorted(b - a for a, b in zip(c["ts"], c["ts"][1:]))
+    if not d:
+        return True
+    m = len(d)
+    return m % 2 == 1 or (d[m // 2 - 1] + d[m // 2]) % 2 == 0
 
 
 def run(ctx):
@@ -34,12 +48,39 @@ def run(ctx):
     for f in r2["failures"]:
         f["kind"] = "predicate"
         f["clause"] = "flag differs from the decision on the spread of the OBSERVED values of the trailing window"
+    # fractional test periods, by time scaling: the series (xs, ts, P + 1/2 s, min_period mp) has the same
+    # windows and the same required counts as (xs, 2 ts, 2 P + 1 s, 2 mp); the latter has whole-second
+    # parameters, is compared with the model (r3), and the implementation must give both the same flags
+    import copy
+    pool = [c for c in dom if c["tp"] not in ("absent", None) and isinstance(c["tp"], int) and c["tp"] >= 1
+            and len(c["xs"]) >= 2 and not fa.range_nan_case(c) and _whole_median_step(c)]
+    rel_fail, scaled = [], []
+    for c in (pool if len(pool) <= 300 else rng.sample(pool, 300)):
+        b = copy.deepcopy(c)
+        b["ts"] = [2 * t for t in c["ts"]]
+        b["tp"] = 2 * c["tp"] + 1
+        if c["min_period"] is not None:
+            b["min_period"] = 2 * c["min_period"]
+        d = copy.deepcopy(c)
+        d["tp"] = c["tp"] + 0.5
+        scaled.append(b)
+        fb, _ = ad.impl(b)
+        fd, _ = ad.impl(d)
+        if fb != fd:
+            rel_fail.append({"kind": "predicate", "function": "attenuated_signal_test",
+                             "case": {"fractional_period": d, "scaled_whole_seconds": b}, "impl": fd, "impl_scaled": fb,
+                             "clause": "flags with a fractional test_period differ from those of the same series with all "
+                                       "times and periods doubled (same windows, same required counts)"})
+    r3 = adapters.run_adapter(ad, [b for b in scaled if ad.in_domain(b)], rng, repeat_frac=0)
+    r3["failures"] += rel_fail
+    r3["evaluations"] += 2 * len(scaled)
     return adapters.merge(
-        [r1, r2],
+        [r1, r2, r3],
         rule="series n<=5 over {missing,0,1,3} on regular (1 s, 60 s) and irregular axes x check types x test_period in "
              "{None, 1,2,3 steps} x min_obs x min_period x thresholds on both sides (fail>suspect included), random longer "
              "series, bad check_type; implementation vs model on the domain plus the rolling-range-with-missing class, and vs "
-             "the specification on that class (known finding). non-trivial = >=2 distinct flags or raises")
+             "the specification on that class (known finding); fractional test periods through the time-scaling relation "
+             "(implementation on (ts, P+1/2) == implementation on (2 ts, 2P+1) == model). non-trivial = >=2 distinct flags or raises")
 
 
 def replay(payload):
